@@ -2,6 +2,7 @@ package vcext
 
 import (
 	"bytes"
+	"context"
 	"io"
 	"net"
 	"net/textproto"
@@ -15,6 +16,7 @@ var _ bytes.Buffer
 var _ net.Conn
 var _ textproto.Conn
 var _ time.Time
+var _ context.Context
 var _ sync.Mutex
 var _ io.Reader
 
@@ -89,3 +91,12 @@ func ghost_bufstr(b *bytes.Buffer) string { panic("ghost") }
 //@ ext (*sync.WaitGroup).Add(wg *sync.WaitGroup, delta int)
 //@ ext (*sync.WaitGroup).Done(wg *sync.WaitGroup)
 //@ ext (*sync.WaitGroup).Wait(wg *sync.WaitGroup)
+
+// time.Time comparisons are pure functions of the two instants.
+//@ ext (time.Time).Before(t time.Time, u time.Time) (r bool)
+//@   pure
+//@ ext (time.Time).After(t time.Time, u time.Time) (r bool)
+//@   pure
+
+//@ iface context.Context.Done(self context.Context) (r <-chan struct{})
+//@ iface context.Context.Err(self context.Context) (err error)
